@@ -553,21 +553,45 @@ func (t *mbTwinCtx) catchable(l *mbLib, engineRel string) (map[string]bool, stri
 		}
 		return types.Identical(info.TypeOf(sel.X), l.intrT)
 	}
+	// the caught-error object (a value object with a "message" field) may be
+	// built in place or by a helper of the engine package (two levels)
+	engDecls := map[*types.Func]*ast.FuncDecl{}
+	for _, fd := range AllFuncDecls(p) {
+		if fn, ok := info.Defs[fd.Name].(*types.Func); ok {
+			engDecls[fn] = fd
+		}
+	}
+	var buildsMsg func(n ast.Node, depth int) bool
+	buildsMsg = func(n ast.Node, depth int) bool {
+		found := false
+		ast.Inspect(n, func(m ast.Node) bool {
+			if found {
+				return false
+			}
+			switch y := m.(type) {
+			case *ast.KeyValueExpr:
+				if tv := info.Types[y.Key]; tv.Value != nil && tv.Value.ExactString() == `"message"` {
+					found = true
+				}
+			case *ast.CallExpr:
+				if depth < 2 {
+					if hd := engDecls[CalleeOf(info, y)]; hd != nil && hd.Body != nil && hd.Recv == nil && ast.Node(hd.Body) != n {
+						if buildsMsg(hd.Body, depth+1) {
+							found = true
+						}
+					}
+				}
+			}
+			return true
+		})
+		return found
+	}
 	for _, fd := range AllFuncDecls(p) {
 		// role: the function that handles a try: it mentions the analyzer's
 		// try-expression node or the compiler's catch labels; resolved
 		// structurally: a Kind() test of an interrupt followed by the
 		// construction of a value object with a "message" field
-		buildsErrObj := false
-		ast.Inspect(fd.Body, func(n ast.Node) bool {
-			if kv, ok := n.(*ast.KeyValueExpr); ok {
-				if tv := info.Types[kv.Key]; tv.Value != nil && tv.Value.ExactString() == `"message"` {
-					buildsErrObj = true
-				}
-			}
-			return true
-		})
-		if !buildsErrObj {
+		if !buildsMsg(fd.Body, 0) {
 			continue
 		}
 		ast.Inspect(fd.Body, func(n ast.Node) bool {
@@ -576,15 +600,7 @@ func (t *mbTwinCtx) catchable(l *mbLib, engineRel string) (map[string]bool, stri
 				if x.Tag != nil && intrKind(x.Tag) {
 					for _, c := range x.Body.List {
 						cc := c.(*ast.CaseClause)
-						handles := false
-						ast.Inspect(cc, func(m ast.Node) bool {
-							if kv, ok := m.(*ast.KeyValueExpr); ok {
-								if tv := info.Types[kv.Key]; tv.Value != nil && tv.Value.ExactString() == `"message"` {
-									handles = true
-								}
-							}
-							return true
-						})
+						handles := buildsMsg(cc, 0)
 						if handles {
 							for _, v := range cc.List {
 								if k := ConstOf(info, v); k != nil {
